@@ -228,7 +228,9 @@ class XsdDateInformation:
         elif self.hour is not None and self.minute is not None and self.second is not None:
             parsed.write(f'T{self.hour:02d}:{self.minute:02d}:')
             # ensure that all decimal places are present (e.g. prevent scientific notation)
-            s = format(decimal.Decimal(repr(self.second)), 'f').rstrip('0').rstrip('.')
+            s = format(decimal.Decimal(repr(self.second)), 'f')
+            if '.' in s:  # an int second has no fraction: stripping zeros would cut the seconds themselves (10 -> '1')
+                s = s.rstrip('0').rstrip('.')
             parsed.write(f'0{s}' if self.second < 10.0 else s)  # noqa: PLR2004
 
         parsed.write(_tz_to_string(self.tz_info))
